@@ -132,6 +132,9 @@ def site_obligations(prog: Program, res: Result, rule: str, need_bare: bool) -> 
     return stats
 
 
+LATER_RULES = ' Later rules: (R8.3) star imports of a preserved file record every bare name; (R8.4c) dunder functions outside classes are never unused; (R8.5) = C05 R5.5 restricted to what feeds `preserve`; (R8.6) rules deleting unused imports take `preserve`.'
+
+
 def check(prog: Program, tier: str) -> Result:
     res = Result(
         "C08",
@@ -150,6 +153,7 @@ def check(prog: Program, tier: str) -> Result:
             "preserved class is never deleted. Not decided: completeness of the name collection for exotic access forms."),
         rule_text="instances = calls carrying `preserve`, definition-affecting sites of the preserve consumers, clauses of the producer; non-trivial = sites that can delete or rename a definition",
     )
+    res.explanation += LATER_RULES
     res.trusted_base = ["CPython ast", "sa/pathcond.py", "sa/preserve.py site enumeration"]
     plumbing(prog, res, "R8.1", ("preserve",))
     stats = site_obligations(prog, res, "R8.2", need_bare=True)
